@@ -25,7 +25,7 @@ def gen_cases(ctx, n):
     return dtwrap.one_case("list")
 
 
-evaluate = dtwrap.evaluate_with("difftest_list.py", ID, quick_scale=0.25, thorough_scale=1.0,
+evaluate = dtwrap.evaluate_with("difftest_list.py", ID, quick_scale=0.25, thorough_scale=3.0,
                                 concrete_kinds=("list", "glob-c", "glob-c-listing", "probe"))
 
 
